@@ -35,7 +35,7 @@ type c20Case struct {
 var c20Faults = []string{"cfg-yaml-syntax", "cfg-optional", "cfg-casing", "cfg-package", "cfg-missing", "cfg-binds-own-package",
 	"schema-syntax", "schema-nomatch", "schema-invalid",
 	"op-syntax", "op-unknown-field", "op-none", "op-anonymous", "op-go-syntax",
-	"gen-unknown-scalar", "gen-keyword-var", "gen-conflicting-typenames"}
+	"gen-unknown-scalar", "gen-keyword-var", "gen-conflicting-typenames", "gen-gofmt-error"}
 
 const c20Schema = `type Query { user(id: ID!): User, users: [User!]!, when: Date }
 type User { id: ID!, name: String, age: Int, friend: User }
@@ -92,6 +92,11 @@ func c20Write(dir string, st c20Step, export bool) {
 		yaml = strings.Replace(yaml, "- q.graphql", "- q.graphql\n- q.go", 1)
 		os.WriteFile(filepath.Join(dir, "q.go"), []byte("package gen\nfunc ( {\n"), 0o644)
 	case "gen-unknown-scalar":
+		ops += "query W { when }\n"
+	case "gen-gofmt-error":
+		// a bound type name the generator accepts but that is not valid Go: the error surfaces only when the rendered
+		// code is formatted, after every output has been produced in memory
+		yaml += "bindings:\n  Date:\n    type: \"time.Ti-me\"\n"
 		ops += "query W { when }\n"
 	case "gen-keyword-var":
 		ops += "query K($type: ID!) { user(id: $type) { id } }\n"
